@@ -42,129 +42,17 @@ pub fn bytes_to_i32(b: [u8; 2]) -> i32 {
 }
 
 pub fn f64_to_bytes(f: f64) -> [u8; 8] {
-    // bits is msb -> lsb
-    let bits = f64_to_bits(f);
-    debug_assert_eq!(DOUBLE_BITS, bits.len());
-    // result is lsb -> msb
-    [
-        msb_bits_to_byte(&bits[56..64]),
-        msb_bits_to_byte(&bits[48..56]),
-        msb_bits_to_byte(&bits[40..48]),
-        msb_bits_to_byte(&bits[32..40]),
-        msb_bits_to_byte(&bits[24..32]),
-        msb_bits_to_byte(&bits[16..24]),
-        msb_bits_to_byte(&bits[8..16]),
-        msb_bits_to_byte(&bits[0..8]),
-    ]
+    // the IEEE-754 binary64 encoding, result is lsb -> msb
+    f.to_le_bytes()
 }
 
+/// The 64 bits of the encoding, msb -> lsb:
+/// 1 bit for sign, 11 bits for exponent (bias 1023), 52 bits for significant.
+#[cfg(test)]
 fn f64_to_bits(value: f64) -> Vec<bool> {
-    match f64_abs_normalize_value(value) {
-        Some((absolute_value, initial_exponent)) => {
-            f64_to_bits_for_normalized_value(value < 0.0, absolute_value, initial_exponent)
-        }
-        None => {
-            // zero
-            [false; DOUBLE_BITS].to_vec()
-        }
-    }
-}
-
-macro_rules! int_to_bits_vec {
-    ($value: expr, $bits: expr, $bit_index: expr) => {{
-        let mut temp = $value;
-        while temp > 0 {
-            let remainder = temp % 2;
-            $bits.insert($bit_index, remainder == 1);
-            temp /= 2;
-        }
-    }};
-}
-
-fn f64_to_bits_for_normalized_value(
-    is_negative: bool,
-    absolute_value: f64,
-    initial_exponent: usize,
-) -> Vec<bool> {
-    // msb -> lsb
-    //
-    //  1 bit for sign,
-    //
-    // 11 bit for exponent,
-    //
-    // 52 bit for significant.
-    //
-    // 1023 for bias
-    //
-    // 1.significant * 2 ^ exponent
-    let mut bits: Vec<bool> = vec![];
-    bits.push(is_negative);
-
-    // create int_bits msb -> lsb
-    // e.g. int_bits for 4 will be [1, 0, 0], but we remove the 1., so it will be [0, 0]
-    let int_bits = f64_int_bits(absolute_value);
-    let fraction_bits = f64_fractional_bits(absolute_value);
-
-    let exponent_with_bias = (int_bits.len() as i32) + DOUBLE_BIAS - (initial_exponent as i32);
-    // insert the exponent bits
-    int_to_bits_vec!(exponent_with_bias, bits, 1);
-    // insert zeroes
-    while bits.len() < 1 + DOUBLE_EXPONENT_BITS {
-        bits.insert(1, false);
-    }
-    // make sure we didn't overflow the exponent bits
-    debug_assert_eq!(
-        1 + DOUBLE_EXPONENT_BITS,
-        bits.len(),
-        "Exponent bits overflow"
-    );
-    // insert the significant bits
-    for bit in int_bits
-        .into_iter()
-        .chain(fraction_bits)
-        .take(DOUBLE_SIGNIFICANT_BITS)
-    {
-        bits.push(bit);
-    }
+    let bits = lsb_bytes_to_msb_bits(&f64_to_bytes(value));
     debug_assert_eq!(DOUBLE_BITS, bits.len());
     bits
-}
-
-fn f64_int_bits(absolute_value: f64) -> Vec<bool> {
-    let mut int_bits: Vec<bool> = vec![];
-    int_to_bits_vec!(absolute_value.trunc() as i64, int_bits, 0);
-    int_bits.remove(0); // it always starts with 1.
-    int_bits
-}
-
-fn f64_fractional_bits(absolute_value: f64) -> Vec<bool> {
-    let mut fraction_value = absolute_value.fract();
-    let mut fraction_bits: Vec<bool> = vec![];
-    while fraction_bits.len() <= DOUBLE_SIGNIFICANT_BITS {
-        if fraction_value >= 0.5 {
-            fraction_bits.push(true);
-            fraction_value = fraction_value * 2.0 - 1.0;
-        } else {
-            fraction_bits.push(false);
-            fraction_value *= 2.0;
-        }
-    }
-    fraction_bits
-}
-
-fn f64_abs_normalize_value(value: f64) -> Option<(f64, usize)> {
-    let mut absolute_value = value.abs();
-    let mut exponent: usize = 0;
-    while absolute_value < 1.0 && exponent < (DOUBLE_BIAS as usize) {
-        absolute_value *= 2.0;
-        exponent += 1;
-    }
-
-    if absolute_value < 1.0 {
-        None
-    } else {
-        Some((absolute_value, exponent))
-    }
 }
 
 #[cfg(test)]
